@@ -37,3 +37,16 @@ func (r *Rng) Big(maxDigits int) *big.Int {
 	return v
 }
 func (r *Rng) Pick(xs ...string) string { return xs[r.N(len(xs))] }
+
+// Perm returns a random permutation of 0..n-1 (Fisher–Yates from the one PRNG state)
+func (r *Rng) Perm(n int) []int {
+	p := make([]int, n)
+	for i := range p {
+		p[i] = i
+	}
+	for i := n - 1; i > 0; i-- {
+		j := r.N(i + 1)
+		p[i], p[j] = p[j], p[i]
+	}
+	return p
+}
